@@ -4,8 +4,10 @@
      -        an absent optional
      <digits> a natural number in decimal
      word     a keyword
-   Everything here is executable glue; nothing is proved about it except what the
-   correspondence run checks (model line = implementation line). *)
+   Everything here is executable glue.  That it loses nothing is proved in proofs/Proto_proofs.v:
+   every token reads back as the value it stands for (byte strings, optionals, decimal N and Z,
+   lists), byte-string and number tokens contain no separator, and a line of such tokens splits
+   back into them. *)
 From OA Require Import Bytes.
 Local Open Scope N_scope.
 
